@@ -1381,3 +1381,834 @@ Example combine_cancel_during_construction :
   let s := combine_settle true (Some 0) [Some 1] 2 50 (run step (combine_init ns) [LMain; LMain; LMain; LCancel 1]) in
   combine_quiescent s = true /\ combine_ret s = Some 2 /\ is_canc (nodes (bw s)) 2 = true.
 Proof. vm_compute. repeat split; reflexivity. Qed.
+
+(* ------------------------------------------------------------------------------------------------------------ *)
+(* G. ConflatedContext                                                                                          *)
+(* ------------------------------------------------------------------------------------------------------------ *)
+Lemma sum_snoc {A : Type} (g : A -> nat) (l : list A) (x : A) : list_sum (map g (l ++ [x])) = list_sum (map g l) + g x.
+Proof. rewrite map_app, list_sum_app. unfold list_sum at 2. cbn [map fold_right]. lia. Qed.
+
+Lemma list_sum_cons (a : nat) (l : list nat) : list_sum (a :: l) = a + list_sum l.
+Proof. reflexivity. Qed.
+
+Lemma sum_updf {A : Type} (g : A -> nat) (f : A -> A) (l : list A) (i : nat) (x : A) :
+  nth_error l i = Some x -> list_sum (map g (updf l i f)) + g x = list_sum (map g l) + g (f x).
+Proof.
+  revert i. induction l as [|y t IH]; intros [|i] H; cbn in H; try discriminate.
+  - inversion H; subst y. cbn [updf map]. rewrite !list_sum_cons. lia.
+  - cbn [updf map]. rewrite !list_sum_cons. specialize (IH i H). lia.
+Qed.
+
+Lemma sum_map_ext {A : Type} (g : A -> nat) (h : A -> A) (l : list A) :
+  (forall x, In x l -> g (h x) = g x) -> list_sum (map g (map h l)) = list_sum (map g l).
+Proof.
+  induction l as [|y t IH]; intros H; [reflexivity|]. cbn [map]. rewrite !list_sum_cons. rewrite H by (left; reflexivity).
+  rewrite IH; [reflexivity|]. intros x Hx. apply H. right. exact Hx.
+Qed.
+
+Lemma sum_ge {A : Type} (g : A -> nat) (l : list A) (i : nat) (x : A) :
+  nth_error l i = Some x -> g x <= list_sum (map g l).
+Proof.
+  revert i. induction l as [|y t IH]; intros [|i] H; cbn in H; try discriminate.
+  - inversion H; subst y. cbn [map]. rewrite list_sum_cons. lia.
+  - cbn [map]. rewrite list_sum_cons. specialize (IH i H). lia.
+Qed.
+
+Definition is_done_act (f : fn) : bool := match f with FAct AWgDone => true | _ => false end.
+
+(* a registration that still owes one wg.Done *)
+Definition tok (x : reg) : nat :=
+  match rst x with
+  | Pending => if is_done_act (rfn x) then 1 else 0
+  | Run f => if is_done_act f then 1 else 0
+  | _ => 0
+  end.
+
+Lemma tok_fire ns x : tok (fire ns x) = tok x.
+Proof.
+  destruct (fire_cases ns x) as [(Ep & Ek & ->)|[(Ep & Ek & ->)|(Hnp & ->)]]; try reflexivity.
+  unfold tok. cbn [set_rst rst rfn]. rewrite Ep. reflexivity.
+Qed.
+
+Definition kR (s : fstate) : bool := is_canc (nodes (fw s)) (fR s).
+Definition hasR (pc : fpc) : bool := match pc with F0 | F1 | FPanic => false | _ => true end.
+Definition is_FRet (pc : fpc) : bool := match pc with FRet => true | _ => false end.
+
+Definition FN (ns0 : list node) (inputs : list nat) (s : fstate) : Prop :=
+  let ns := nodes (fw s) in let nenv := length ns0 in
+  (forall x, x < nenv -> vals_of ns x = vals_of ns0 x) /\
+  match fpcv s with
+  | F0 => length ns = nenv
+  | FPanic => True
+  | F1 => length ns = S nenv /\ fD s = nenv /\ anc_of ns nenv = [nenv] /\ is_canc ns nenv = false /\
+          (forall c0, hd_error inputs = Some c0 -> vals_of ns nenv = vals_of ns0 c0)
+  | _ => length ns = S (S nenv) /\ fD s = nenv /\ fR s = S nenv /\ anc_of ns nenv = [nenv] /\ is_canc ns nenv = false /\
+         anc_of ns (S nenv) = [S nenv; nenv] /\
+         (forall c0, hd_error inputs = Some c0 -> vals_of ns (S nenv) = vals_of ns0 c0)
+  end.
+
+Definition guard (s : fstate) : nat :=
+  match fpcv s with
+  | F0 | F1 | F2 | FPanic | FSpawn => 0
+  | FRet => if fok s then 0 else 1
+  | _ => 1
+  end.
+Definition inflight (s : fstate) : nat := match fpcv s with FRegA _ => 1 | _ => 0 end.
+
+Definition FW (s : fstate) : Prop :=
+  wgneg (fw s) = false /\ wg (fw s) = guard s + inflight s + list_sum (map tok (regs (fw s))).
+
+Definition FR1 (s : fstate) (k : nat) (x : reg) : Prop :=
+  (rfn x = FAct AWgDone /\ In (rnode x) (flives s) /\ (forall f, rst x = Run f -> f = FAct AWgDone) /\
+   (rst x = Stopped -> kR s = true) /\
+   ((exists i, fpcv s = FRegB i k) \/ exists b y, nth_error (regs (fw s)) b = Some y /\ rfn y = FChain true k AWgDone))
+  \/
+  (exists a, rfn x = FChain true a AWgDone /\ rnode x = fR s /\ rst x <> Stopped /\
+     (exists xa, nth_error (regs (fw s)) a = Some xa /\ rfn xa = FAct AWgDone) /\
+     (forall f, rst x = Run f -> f = rfn x \/ f = FAct AWgDone) /\
+     (rst x = Run (FAct AWgDone) \/ rst x = Done -> is_pending (fw s) a = false)).
+
+Definition FR (s : fstate) : Prop := forall k x, nth_error (regs (fw s)) k = Some x -> FR1 s k x.
+
+Definition idx (inputs : list nat) (pc : fpc) : nat :=
+  match pc with
+  | F0 | F1 | F2 | FPanic => 0
+  | FLoop i => i
+  | FAdd i | FRegA i | FRegB i _ => S i
+  | _ => length inputs
+  end.
+
+Definition FL (inputs : list nat) (s : fstate) : Prop :=
+  let rs := regs (fw s) in
+  (fok s = false -> flives s = []) /\
+  (forall x, In x (flives s) -> In x inputs) /\
+  (forall x, In x (flives s) ->
+     (exists k y, nth_error rs k = Some y /\ rfn y = FAct AWgDone /\ rnode y = x) \/
+     (exists i, (fpcv s = FAdd i \/ fpcv s = FRegA i) /\ nth_error inputs i = Some x)) /\
+  (forall j x, j < idx inputs (fpcv s) -> nth_error inputs j = Some x ->
+     is_canc (nodes (fw s)) x = true \/ In x (flives s)) /\
+  match fpcv s with
+  | F0 | F1 | F2 | FPanic => rs = [] /\ flives s = []
+  | FAdd i | FRegA i => exists x, nth_error inputs i = Some x /\ In x (flives s)
+  | FRegB i a => (exists x, nth_error inputs i = Some x /\ In x (flives s)) /\
+                 exists xa, nth_error rs a = Some xa /\ rfn xa = FAct AWgDone
+  | FDoneG | FSpawn => fok s = true
+  | FDefer => fok s = false
+  | _ => True
+  end.
+
+Definition AllDead (s : fstate) : Prop := forall x, In x (flives s) -> is_canc (nodes (fw s)) x = true.
+
+Definition FK (s : fstate) : Prop :=
+  (is_FRet (fpcv s) = false -> fwait s = WNone /\ fucancel s = false /\ (hasR (fpcv s) = true -> kR s = false)) /\
+  (is_FRet (fpcv s) = true -> kR s = true \/ fwait s = WCancel \/ fwait s = WExit -> fucancel s = true \/ AllDead s) /\
+  (fucancel s = true -> kR s = true) /\ (fwait s = WExit -> kR s = true) /\
+  (is_FRet (fpcv s) = true -> fok s = false -> kR s = true /\ fwait s = WNone) /\
+  (is_FRet (fpcv s) = true -> fok s = true -> fwait s <> WNone).
+
+Definition FInv (ns0 : list node) (inputs : list nat) (s : fstate) : Prop :=
+  WInv (fw s) /\ FN ns0 inputs s /\ FW s /\ FR s /\ FL inputs s /\ FK s.
+
+Lemma is_pending_cancel w n a : is_pending w a = false -> is_pending (w_cancel w n) a = false.
+Proof.
+  intros H. destruct (is_pending (w_cancel w n) a) eqn:E; [|reflexivity].
+  apply is_pending_spec in E. destruct E as (x' & Hx' & Hp). apply regs_cancel_nth in Hx'. destruct Hx' as (x & Hx & ->).
+  apply fire_pending in Hp. assert (is_pending w a = true) by (apply is_pending_spec; eauto). congruence.
+Qed.
+
+Lemma fset_id s : fset s (fw s) (fpcv s) = s.
+Proof. destruct s; reflexivity. Qed.
+
+Lemma fcancel_parts ns0 inputs s n :
+  WInv (fw s) -> FN ns0 inputs s -> FW s -> FR s -> FL inputs s ->
+  (n < length ns0 \/ (n = S (length ns0) /\ hasR (fpcv s) = true)) ->
+  let s' := fset s (w_cancel (fw s) n) (fpcv s) in
+  WInv (fw s') /\ FN ns0 inputs s' /\ FW s' /\ FR s' /\ FL inputs s' /\
+  mono (nodes (fw s)) (nodes (fw s')) /\
+  (n < length ns0 -> hasR (fpcv s) = true -> kR s' = kR s) /\
+  (n = S (length ns0) -> hasR (fpcv s) = true -> kR s' = true).
+Proof.
+  intros HW HN HFW HFR HFL Hn s'. subst s'.
+  set (ns' := map (mark n) (nodes (fw s))).
+  assert (Hm : mono (nodes (fw s)) ns') by apply mono_mark.
+  assert (Hkm : kR s = true -> kR (fset s (w_cancel (fw s) n) (fpcv s)) = true) by (unfold kR, fset; cbn [fw fR w_cancel nodes]; apply Hm).
+  assert (Hne : n <> length ns0) by (destruct Hn as [Hn|[Hn _]]; lia).
+  assert (Hk0 : memb n [length ns0] = false).
+  { cbn. destruct (Nat.eqb_spec n (length ns0)); [contradiction|reflexivity]. }
+  split; [apply WInv_cancel; exact HW|]. split; [|split; [|split; [|split; [|split; [exact Hm|split]]]]].
+  - (* FN *)
+    unfold FN in *. unfold fset; cbn [fw fpcv fD fR w_cancel nodes]. fold ns'. destruct HN as [HV HN].
+    split; [intros x Hx; unfold ns'; rewrite vals_of_mark; apply HV; exact Hx|].
+    unfold ns'. rewrite map_length, ?anc_of_mark, ?is_canc_mark.
+    destruct (fpcv s); auto;
+      try (destruct HN as (H1 & H2 & H3 & H4 & H5 & H6 & H7); rewrite H4, H5, Hk0; repeat (split; [first [assumption|reflexivity]|]);
+           intros c0 Hc0; rewrite vals_of_mark; apply H7; exact Hc0).
+    destruct HN as (H1 & H2 & H3 & H4 & H5). rewrite H3, H4, Hk0. repeat (split; [first [assumption|reflexivity]|]).
+    intros c0 Hc0; rewrite vals_of_mark; apply H5; exact Hc0.
+  - (* FW *)
+    unfold FW in *. unfold fset; cbn [fw w_cancel wgneg wg regs]. destruct HFW as [H1 H2]. split; [exact H1|].
+    rewrite sum_map_ext; [exact H2|]. intros x _. apply tok_fire.
+  - (* FR *)
+    intros k x' Hx'. unfold fset in Hx'; cbn [fw] in Hx'. apply regs_cancel_nth in Hx'. destruct Hx' as (x & Hx & ->). fold ns'.
+    destruct (fire_static ns' x) as [Hsn Hsf]. unfold FR1. rewrite Hsn, Hsf.
+    unfold fset; cbn [fw fpcv fR flives].
+    destruct (HFR k x Hx) as [(Hf & Hin & Hrun & Hst & Hpart)|(a & Hf & Hrn & Hns & Hxa & Hrun & Hfin)]; [left|right].
+    + repeat (split; [assumption|]). split; [|split].
+      * intros f Hr. apply fire_run in Hr. destruct Hr as [Hr|[_ ->]]; [apply Hrun; exact Hr|exact Hf].
+      * intros Hs. apply Hkm. apply Hst. rewrite <- Hs. symmetry. apply fire_final. auto.
+      * destruct Hpart as [Hpc|(b & y & Hy & Hyf)]; [left; exact Hpc|right].
+        destruct (cancel_static (fw s) n b y Hy) as (y' & Hy' & _ & Hyf'). exists b, y'. split; [exact Hy'|congruence].
+    + exists a. repeat (split; [assumption|]). split; [|split; [|split]].
+      * intros Hs. apply Hns. rewrite <- Hs. symmetry. apply fire_final. auto.
+      * destruct Hxa as (xa & Hxa & Hxaf). destruct (cancel_static (fw s) n a xa Hxa) as (xa' & Hxa' & _ & Hf'). exists xa'. split; [exact Hxa'|congruence].
+      * intros f Hr. apply fire_run in Hr. destruct Hr as [Hr|[_ ->]]; [apply Hrun; exact Hr|left; reflexivity].
+      * intros Hd. apply is_pending_cancel. apply Hfin. destruct Hd as [Hd|Hd].
+        -- apply fire_run in Hd. destruct Hd as [Hd|[_ Hd]]; [left; exact Hd|]. rewrite Hf in Hd. discriminate.
+        -- right. rewrite <- Hd. symmetry. apply fire_final. auto.
+  - (* FL *)
+    unfold FL in *. unfold fset; cbn [fw fpcv fok flives w_cancel nodes]. destruct HFL as (H1 & H2 & H3 & H4 & H5).
+    split; [exact H1|]. split; [exact H2|]. split; [|split].
+    + intros x Hx. destruct (H3 x Hx) as [(k & y & Hy & Hyf & Hyn)|Hip]; [left|right; exact Hip].
+      destruct (cancel_static (fw s) n k y Hy) as (y' & Hy' & Hn' & Hf'). exists k, y'. split; [exact Hy'|]. split; congruence.
+    + intros j x Hj Hx. destruct (H4 j x Hj Hx) as [Hk|Hl]; [left; apply Hm; exact Hk|right; exact Hl].
+    + destruct (fpcv s); auto.
+      * destruct H5 as [Hnil Hl]. split; [cbn [w_cancel regs]; rewrite Hnil; reflexivity|exact Hl].
+      * destruct H5 as [Hnil Hl]. split; [cbn [w_cancel regs]; rewrite Hnil; reflexivity|exact Hl].
+      * destruct H5 as [Hnil Hl]. split; [cbn [w_cancel regs]; rewrite Hnil; reflexivity|exact Hl].
+      * destruct H5 as [Hi (xa & Hxa & Hxaf)]. split; [exact Hi|].
+        destruct (cancel_static (fw s) n a xa Hxa) as (xa' & Hxa' & _ & Hf'). exists xa'. split; [exact Hxa'|congruence].
+      * destruct H5 as [Hnil Hl]. split; [cbn [w_cancel regs]; rewrite Hnil; reflexivity|exact Hl].
+  - (* input cancel leaves R alone *)
+    intros Hlt Hh. unfold kR. unfold fset; cbn [fw fR w_cancel nodes]. rewrite is_canc_mark.
+    unfold FN in HN. destruct HN as [_ HN].
+    assert (Ha : fR s = S (length ns0) /\ anc_of (nodes (fw s)) (S (length ns0)) = [S (length ns0); length ns0]).
+    { destruct (fpcv s); try discriminate; destruct HN as (_ & _ & H3 & _ & _ & H6 & _); auto. }
+    destruct Ha as [-> ->]. cbn. destruct (Nat.eqb_spec n (S (length ns0))); [lia|]. destruct (Nat.eqb_spec n (length ns0)); [lia|].
+    cbn. rewrite orb_false_r. reflexivity.
+  - (* cancelling R *)
+    intros -> Hh. unfold kR. unfold fset; cbn [fw fR w_cancel nodes]. unfold FN in HN. destruct HN as [_ HN].
+    assert (Ha : fR s = S (length ns0) /\ anc_of (nodes (fw s)) (S (length ns0)) = [S (length ns0); length ns0]).
+    { destruct (fpcv s); try discriminate; destruct HN as (_ & _ & H3 & _ & _ & H6 & _); auto. }
+    destruct Ha as [-> Ha]. eapply is_canc_self. exact Ha.
+Qed.
+
+Lemma hasR_FRet pc : is_FRet pc = true -> hasR pc = true.
+Proof. destruct pc; cbn; congruence. Qed.
+
+Lemma FK_transfer s s' :
+  fpcv s' = fpcv s -> fok s' = fok s -> fwait s' = fwait s -> fucancel s' = fucancel s -> flives s' = flives s ->
+  mono (nodes (fw s)) (nodes (fw s')) -> (hasR (fpcv s) = true -> kR s' = kR s) ->
+  FK s -> FK s'.
+Proof.
+  intros Hpc Hok Hw Hu Hl Hm Hk (K1 & K2 & K3 & K4 & K5 & K6). unfold FK. rewrite Hpc, Hok, Hw, Hu.
+  assert (HA : AllDead s -> AllDead s') by (intros HA x Hx; apply Hm; apply HA; rewrite <- Hl; exact Hx).
+  split; [|split; [|split; [|split; [|split]]]].
+  - intros Hf. destruct (K1 Hf) as (A & B & C). repeat (split; [assumption|]). intros Hh. rewrite Hk by exact Hh. apply C. exact Hh.
+  - intros Hf Hp. rewrite Hk in Hp by (apply hasR_FRet; exact Hf). destruct (K2 Hf Hp); auto.
+  - intros Hu'. destruct (is_FRet (fpcv s)) eqn:Ef.
+    + rewrite Hk by (apply hasR_FRet; exact Ef). apply K3. exact Hu'.
+    + destruct (K1 eq_refl) as (_ & B & _). congruence.
+  - intros Hw'. destruct (is_FRet (fpcv s)) eqn:Ef.
+    + rewrite Hk by (apply hasR_FRet; exact Ef). apply K4. exact Hw'.
+    + destruct (K1 eq_refl) as (A & _ & _). congruence.
+  - intros Hf Hok'. rewrite Hk by (apply hasR_FRet; exact Hf). apply K5; assumption.
+  - intros Hf Hok'. apply K6; assumption.
+Qed.
+
+Lemma finv_envcancel ns0 inputs s n :
+  FInv ns0 inputs s -> n < length ns0 -> FInv ns0 inputs (fset s (w_cancel (fw s) n) (fpcv s)).
+Proof.
+  intros (HW & HN & HFW & HFR & HFL & HFK) Hn.
+  destruct (fcancel_parts ns0 inputs s n HW HN HFW HFR HFL (or_introl Hn)) as (A & B & C & D & E & Hm & Hk & _).
+  repeat (split; [assumption|]). eapply FK_transfer; try exact HFK; try reflexivity; [exact Hm|]. intros Hh. apply Hk; assumption.
+Qed.
+
+(* transfer along a change of the world that keeps nodes and registrations *)
+Lemma FR_ext s s1 :
+  regs (fw s1) = regs (fw s) -> nodes (fw s1) = nodes (fw s) -> fR s1 = fR s -> flives s1 = flives s ->
+  (forall i k, fpcv s = FRegB i k -> fpcv s1 = FRegB i k) -> FR s -> FR s1.
+Proof.
+  intros Hr Hn HR Hl Hpc H k x Hx. rewrite Hr in Hx. unfold FR1, kR, is_pending. rewrite Hr, Hn, HR, Hl.
+  destruct (H k x Hx) as [(A & B & C & D & E)|HB]; [left|right; exact HB].
+  repeat (split; [assumption|]). destruct E as [(i & E)|E]; [left; exists i; apply Hpc; exact E|right; exact E].
+Qed.
+
+Lemma FL_ext inputs s s1 :
+  regs (fw s1) = regs (fw s) -> nodes (fw s1) = nodes (fw s) -> fok s1 = fok s -> flives s1 = flives s ->
+  fpcv s1 = fpcv s -> FL inputs s -> FL inputs s1.
+Proof. intros Hr Hn Hok Hl Hpc H. unfold FL in *. rewrite Hr, Hn, Hok, Hl, Hpc. exact H. Qed.
+
+Lemma FN_ext ns0 inputs s s1 :
+  nodes (fw s1) = nodes (fw s) -> fpcv s1 = fpcv s -> fD s1 = fD s -> fR s1 = fR s -> FN ns0 inputs s -> FN ns0 inputs s1.
+Proof. intros Hn Hpc HD HR H. unfold FN in *. rewrite Hn, Hpc, HD, HR. exact H. Qed.
+
+Lemma FK_ext s s1 :
+  nodes (fw s1) = nodes (fw s) -> fpcv s1 = fpcv s -> fok s1 = fok s -> fwait s1 = fwait s -> fucancel s1 = fucancel s ->
+  flives s1 = flives s -> fR s1 = fR s -> FK s -> FK s1.
+Proof.
+  intros Hn Hpc Hok Hw Hu Hl HR H. eapply FK_transfer; eauto.
+  - rewrite Hn. apply mono_refl.
+  - intros _. unfold kR. rewrite Hn, HR. reflexivity.
+Qed.
+
+Lemma is_pending_setrst w r st a :
+  st <> Pending -> is_pending w a = false -> is_pending (w_setrst w r st) a = false.
+Proof.
+  intros Hst H. destruct (is_pending (w_setrst w r st) a) eqn:E; [|reflexivity].
+  apply is_pending_spec in E. destruct E as (x' & Hx' & Hp). apply regs_setrst_nth in Hx'.
+  destruct Hx' as (x & Hx & [[-> ->]|[_ ->]]).
+  - cbn in Hp. congruence.
+  - assert (is_pending w a = true) by (apply is_pending_spec; eauto). congruence.
+Qed.
+
+Lemma FR_setrst s r st' :
+  st' <> Pending -> FR s ->
+  (forall x, nth_error (regs (fw s)) r = Some x -> FR1 (fset s (w_setrst (fw s) r st') (fpcv s)) r (set_rst x st')) ->
+  FR (fset s (w_setrst (fw s) r st') (fpcv s)).
+Proof.
+  intros Hst HFR Hr k x' Hx'. unfold fset in Hx'; cbn [fw] in Hx'. apply regs_setrst_nth in Hx'.
+  destruct Hx' as (x & Hx & [[-> ->]|[Hne ->]]); [apply Hr; exact Hx|].
+  unfold FR1, kR. unfold fset; cbn [fw fpcv fR flives]. rewrite nodes_setrst.
+  destruct (HFR k x Hx) as [(A & B & C & D & E)|(a & A & B & C & D & E & F)]; [left|right].
+  - repeat (split; [assumption|]). destruct E as [E|(b & y & Hy & Hyf)]; [left; exact E|right].
+    destruct (setrst_static (fw s) r st' b y Hy) as (y' & Hy' & _ & Hf'). exists b, y'. split; [exact Hy'|congruence].
+  - exists a. repeat (split; [assumption|]). split; [|split; [exact E|]].
+    + destruct D as (xa & Hxa & Hxaf). destruct (setrst_static (fw s) r st' a xa Hxa) as (xa' & Hxa' & _ & Hf'). exists xa'. split; [exact Hxa'|congruence].
+    + intros Hd. apply is_pending_setrst; [exact Hst|apply F; exact Hd].
+Qed.
+
+Lemma FL_static inputs s w' :
+  nodes w' = nodes (fw s) -> length (regs w') = length (regs (fw s)) ->
+  (forall k x, nth_error (regs (fw s)) k = Some x -> exists x', nth_error (regs w') k = Some x' /\ rnode x' = rnode x /\ rfn x' = rfn x) ->
+  FL inputs s -> FL inputs (fset s w' (fpcv s)).
+Proof.
+  intros Hn Hlen Hs (H1 & H2 & H3 & H4 & H5). unfold FL. unfold fset; cbn [fw fpcv fok flives]. rewrite Hn.
+  split; [exact H1|]. split; [exact H2|]. split; [|split; [exact H4|]].
+  - intros x Hx. destruct (H3 x Hx) as [(k & y & Hy & Hyf & Hyn)|Hip]; [left|right; exact Hip].
+    destruct (Hs k y Hy) as (y' & Hy' & Hn' & Hf'). exists k, y'. split; [exact Hy'|]. split; congruence.
+  - assert (Hnil : regs (fw s) = [] -> regs w' = []).
+    { intros H. rewrite H in Hlen. destruct (regs w'); [reflexivity|discriminate]. }
+    destruct (fpcv s); auto; try (destruct H5 as [Hx Hl]; split; [auto|exact Hl]).
+    destruct H5 as [Hi (xa & Hxa & Hxaf)]. split; [exact Hi|].
+    destruct (Hs a xa Hxa) as (xa' & Hxa' & _ & Hf'). exists xa'. split; [exact Hxa'|congruence].
+Qed.
+
+Definition FP (ns0 : list node) (inputs : list nat) (s : fstate) : Prop :=
+  FN ns0 inputs s /\ FR s /\ FL inputs s /\ FK s.
+
+Lemma FP_setrst ns0 inputs s r st' :
+  st' <> Pending -> FP ns0 inputs s ->
+  (forall x, nth_error (regs (fw s)) r = Some x -> FR1 (fset s (w_setrst (fw s) r st') (fpcv s)) r (set_rst x st')) ->
+  FP ns0 inputs (fset s (w_setrst (fw s) r st') (fpcv s)).
+Proof.
+  intros Hst (HN & HFR & HFL & HFK) Hr. split; [|split; [|split]].
+  - eapply FN_ext; try exact HN; reflexivity.
+  - apply FR_setrst; assumption.
+  - apply FL_static; [reflexivity|cbn [w_setrst w_setregs regs]; apply length_updf|intros k x; apply setrst_static|exact HFL].
+  - eapply FK_ext; try exact HFK; reflexivity.
+Qed.
+
+Lemma FP_wg ns0 inputs s w1 :
+  regs w1 = regs (fw s) -> nodes w1 = nodes (fw s) -> FP ns0 inputs s -> FP ns0 inputs (fset s w1 (fpcv s)).
+Proof.
+  intros Hr Hn (HN & HFR & HFL & HFK). split; [|split; [|split]].
+  - eapply FN_ext; try exact HN; auto.
+  - eapply FR_ext; try exact HFR; auto.
+  - eapply FL_ext; try exact HFL; auto.
+  - eapply FK_ext; try exact HFK; auto.
+Qed.
+
+Lemma FR1_A_of_fn s k x : FR1 s k x -> rfn x = FAct AWgDone ->
+  In (rnode x) (flives s) /\ (forall f, rst x = Run f -> f = FAct AWgDone) /\ (rst x = Stopped -> kR s = true) /\
+  ((exists i, fpcv s = FRegB i k) \/ exists b y, nth_error (regs (fw s)) b = Some y /\ rfn y = FChain true k AWgDone).
+Proof. intros [(A & B)|(a & A & _)] Hf; [exact B|congruence]. Qed.
+
+Lemma regs_act_done w : regs (w_act w AWgDone) = regs w.
+Proof. cbn [w_act]. destruct (wg w); reflexivity. Qed.
+Lemma is_pending_act_done w a : is_pending (w_act w AWgDone) a = is_pending w a.
+Proof. unfold is_pending. rewrite regs_act_done. reflexivity. Qed.
+
+Lemma finv_hook ns0 inputs s r w' :
+  FInv ns0 inputs s -> w_hook (fw s) r = Some w' -> FInv ns0 inputs (fset s w' (fpcv s)).
+Proof.
+  intros (HW & HN & HFW & HFR & HFL & HFK) Hh.
+  pose proof (WInv_hook _ _ _ HW Hh) as HW'.
+  assert (HP : FP ns0 inputs s) by exact (conj HN (conj HFR (conj HFL HFK))).
+  apply w_hook_inv in Hh. destruct Hh as (x & Hx & Hc).
+  destruct (HW r x Hx) as (_ & _ & Hfired).
+  destruct HFW as [Hneg Hwg].
+  (* the common "call wg.Done, finish" step *)
+  assert (Hdone : rst x = Run (FAct AWgDone) -> WInv (w_setrst (w_act (fw s) AWgDone) r Done) ->
+            (forall s1, s1 = fset s (w_act (fw s) AWgDone) (fpcv s) ->
+               FR1 (fset s1 (w_setrst (fw s1) r Done) (fpcv s1)) r (set_rst x Done)) ->
+            FInv ns0 inputs (fset s (w_setrst (w_act (fw s) AWgDone) r Done) (fpcv s))).
+  { intros Ex HWd Hnew.
+    assert (Htok : tok x = 1) by (unfold tok; rewrite Ex; reflexivity).
+    pose proof (sum_ge tok _ _ _ Hx) as Hge. rewrite Htok in Hge.
+    destruct (wg (fw s)) as [|k] eqn:Ewg; [lia|].
+    set (w1 := w_act (fw s) AWgDone). assert (Ew1 : w1 = {| nodes := nodes (fw s); regs := regs (fw s); calls := calls (fw s); wg := k; wgneg := wgneg (fw s) |})
+      by (unfold w1; cbn [w_act]; rewrite Ewg; reflexivity).
+    assert (HP1 : FP ns0 inputs (fset s w1 (fpcv s))) by (apply FP_wg; [rewrite Ew1; reflexivity|rewrite Ew1; reflexivity|exact HP]).
+    set (s1 := fset s w1 (fpcv s)) in *.
+    assert (HP2 : FP ns0 inputs (fset s1 (w_setrst (fw s1) r Done) (fpcv s1))).
+    { apply FP_setrst; [discriminate|exact HP1|]. intros x0 Hx0. unfold s1, fset in Hx0; cbn [fw] in Hx0. rewrite Ew1 in Hx0. cbn [regs] in Hx0.
+      assert (x0 = x) by congruence. subst x0. apply Hnew. reflexivity. }
+    destruct HP2 as (A & B & C & D). split; [exact HWd|]. split; [exact A|]. split; [|split; [exact B|split; [exact C|exact D]]].
+    unfold FW, guard, inflight. unfold s1, fset; cbn [fw fpcv fok w_setrst w_setregs wgneg wg regs]. rewrite Ew1. cbn [wgneg wg regs].
+    split; [exact Hneg|]. pose proof (sum_updf tok (fun x0 => set_rst x0 Done) _ _ _ Hx) as Hs. rewrite Htok in Hs.
+    unfold tok at 3 in Hs. cbn [set_rst rst] in Hs. unfold guard, inflight in Hwg. lia. }
+  destruct (HFR r x Hx) as [(Hf & Hin & Hrun & Hst & Hpart)|(a & Hf & Hrn & Hns & (xa & Hxa & Hxaf) & Hrun & Hfin)].
+  - (* a hook on an input: wg.Done *)
+    destruct Hc as [(a & Ea & ->)|[(c & r0 & a & Ea & _)|[(c & r0 & a & Ea & _)|[(Ea & _)|(r0 & rs & Ea & _)]]]];
+      try (specialize (Hrun _ Ea); discriminate).
+    pose proof (Hrun _ Ea) as Ha. inversion Ha; subst a; clear Ha. apply Hdone; [exact Ea|exact HW'|].
+    intros s1 ->. left. unfold fset; cbn [fw fpcv fR flives set_rst rfn rnode rst].
+    repeat (split; [first [assumption|intros; discriminate]|]).
+    destruct Hpart as [Hpc|(b & y & Hy & Hyf)]; [left; exact Hpc|right].
+    destruct (setrst_static (w_act (fw s) AWgDone) r Done b y) as (y' & Hy' & _ & Hf').
+    { rewrite regs_act_done. exact Hy. }
+    exists b, y'. split; [exact Hy'|congruence].
+  - (* the primary-side hook of a chain *)
+    assert (HkR : kR s = true).
+    { unfold kR. rewrite <- Hrn. apply Hfired. destruct Hc as [(a0 & Ea & _)|[(c & r0 & a0 & Ea & _)|[(c & r0 & a0 & Ea & _)|[(Ea & _)|(r0 & rs & Ea & _)]]]]; left; eauto. }
+    destruct Hc as [(a0 & Ea & ->)|[(c & r0 & a0 & Ea & Ep & ->)|[(c & r0 & a0 & Ea & Ep & ->)|[(Ea & _)|(r0 & rs & Ea & _)]]]].
+    + (* f() after a successful stop *)
+      destruct (Hrun _ Ea) as [Hr|Hr]; [congruence|]. inversion Hr; subst a0; clear Hr. apply Hdone; [exact Ea|exact HW'|].
+      intros s1 ->. right. exists a. unfold fset; cbn [fw fpcv fR flives set_rst rfn rnode rst].
+      split; [exact Hf|]. split; [exact Hrn|]. split; [discriminate|]. split; [|split; [intros; discriminate|]].
+      * destruct (setrst_static (w_act (fw s) AWgDone) r Done a xa) as (xa' & Hxa' & _ & Hf').
+        { rewrite regs_act_done. exact Hxa. }
+        exists xa'. split; [exact Hxa'|congruence].
+      * intros _. apply is_pending_setrst; [discriminate|].
+        rewrite is_pending_act_done. apply Hfin; left; exact Ea.
+    + (* stop() succeeded *)
+      destruct (Hrun _ Ea) as [Hr|Hr]; [|discriminate]. rewrite Hf in Hr. inversion Hr; subst c r0 a0; clear Hr.
+      apply is_pending_spec in Ep. destruct Ep as (xa0 & Hxa0 & Hpa). assert (xa0 = xa) by congruence. subst xa0.
+      assert (Hne : a <> r) by (intros ->; congruence).
+      destruct (FR1_A_of_fn s a xa (HFR a xa Hxa) Hxaf) as (HinA & HrunA & HstA & HpartA).
+      set (s1 := fset s (w_setrst (fw s) a Stopped) (fpcv s)).
+      assert (HP1 : FP ns0 inputs s1).
+      { apply FP_setrst; [discriminate|exact HP|]. intros x0 Hx0. assert (x0 = xa) by congruence. subst x0.
+        left. unfold fset; cbn [fw fpcv fR flives set_rst rfn rnode rst]. unfold kR. cbn [fw fR]. rewrite nodes_setrst.
+        repeat (split; [first [assumption|intros; discriminate]|]). split; [intros _; exact HkR|].
+        destruct HpartA as [Hpc|(b & y & Hy & Hyf)]; [left; exact Hpc|right].
+        destruct (setrst_static (fw s) a Stopped b y Hy) as (y' & Hy' & _ & Hf'). exists b, y'. split; [exact Hy'|congruence]. }
+      assert (Hx1 : nth_error (regs (fw s1)) r = Some x).
+      { unfold s1, fset; cbn [fw]. rewrite (setrst_fwd _ a Stopped r x Hx). destruct (Nat.eqb_spec r a); [congruence|reflexivity]. }
+      assert (HP2 : FP ns0 inputs (fset s1 (w_setrst (fw s1) r (Run (FAct AWgDone))) (fpcv s1))).
+      { apply FP_setrst; [discriminate|exact HP1|]. intros x0 Hx0. assert (x0 = x) by congruence. subst x0.
+        right. exists a. unfold s1, fset; cbn [fw fpcv fR flives set_rst rfn rnode rst].
+        split; [exact Hf|]. split; [exact Hrn|]. split; [discriminate|]. split; [|split; [intros f Hf'; right; congruence|]].
+        - destruct (setrst_static (fw s) a Stopped a xa Hxa) as (xa1 & Hxa1 & _ & Hf1).
+          destruct (setrst_static (w_setrst (fw s) a Stopped) r (Run (FAct AWgDone)) a xa1 Hxa1) as (xa2 & Hxa2 & _ & Hf2).
+          exists xa2. split; [exact Hxa2|congruence].
+        - intros _. apply is_pending_setrst; [discriminate|].
+          destruct (is_pending (w_setrst (fw s) a Stopped) a) eqn:E; [|reflexivity].
+          apply is_pending_spec in E. destruct E as (y & Hy & Hp). rewrite (setrst_fwd _ a Stopped a xa Hxa), Nat.eqb_refl in Hy.
+          inversion Hy; subst y. cbn in Hp. discriminate. }
+      destruct HP2 as (A & B & C & D). split; [exact HW'|]. split; [exact A|]. split; [|split; [exact B|split; [exact C|exact D]]].
+      unfold FW, guard, inflight. unfold s1, fset; cbn [fw fpcv fok w_setrst w_setregs wgneg wg regs].
+      split; [exact Hneg|].
+      pose proof (sum_updf tok (fun x0 => set_rst x0 Stopped) _ _ _ Hxa) as Hs1.
+      assert (Hx1' : nth_error (updf (regs (fw s)) a (fun x0 => set_rst x0 Stopped)) r = Some x).
+      { rewrite nth_updf, Hx. destruct (Nat.eqb_spec r a); [congruence|reflexivity]. }
+      pose proof (sum_updf tok (fun x0 => set_rst x0 (Run (FAct AWgDone))) _ _ _ Hx1') as Hs2.
+      assert (T1 : tok xa = 1) by (unfold tok; rewrite Hpa, Hxaf; reflexivity).
+      assert (T2 : tok x = 0) by (unfold tok; rewrite Ea; reflexivity).
+      rewrite T1 in Hs1. rewrite T2 in Hs2. unfold tok at 3 in Hs1. unfold tok at 3 in Hs2. cbn [set_rst rst is_done_act] in Hs1, Hs2.
+      unfold guard, inflight in Hwg. lia.
+    + (* stop() failed: nothing to do *)
+      destruct (Hrun _ Ea) as [Hr|Hr]; [|discriminate]. rewrite Hf in Hr. inversion Hr; subst c r0 a0; clear Hr. cbn [negb].
+      assert (HP2 : FP ns0 inputs (fset s (w_setrst (fw s) r Done) (fpcv s))).
+      { apply FP_setrst; [discriminate|exact HP|]. intros x0 Hx0. assert (x0 = x) by congruence. subst x0.
+        right. exists a. unfold fset; cbn [fw fpcv fR flives set_rst rfn rnode rst].
+        split; [exact Hf|]. split; [exact Hrn|]. split; [discriminate|]. split; [|split; [intros; discriminate|]].
+        - destruct (setrst_static (fw s) r Done a xa Hxa) as (xa' & Hxa' & _ & Hf'). exists xa'. split; [exact Hxa'|congruence].
+        - intros _. apply is_pending_setrst; [discriminate|exact Ep]. }
+      destruct HP2 as (A & B & C & D). split; [exact HW'|]. split; [exact A|]. split; [|split; [exact B|split; [exact C|exact D]]].
+      unfold FW, guard, inflight. unfold fset; cbn [fw fpcv fok w_setrst w_setregs wgneg wg regs].
+      split; [exact Hneg|]. pose proof (sum_updf tok (fun x0 => set_rst x0 Done) _ _ _ Hx) as Hs.
+      assert (T2 : tok x = 0) by (unfold tok; rewrite Ea; reflexivity). rewrite T2 in Hs. unfold tok at 3 in Hs. cbn [set_rst rst] in Hs.
+      unfold guard, inflight in Hwg. lia.
+    + destruct (Hrun _ Ea) as [Hr|Hr]; [rewrite Hf in Hr|]; discriminate.
+    + destruct (Hrun _ Ea) as [Hr|Hr]; [rewrite Hf in Hr|]; discriminate.
+Qed.
+
+Definition wfi (inputs : list nat) (nenv : nat) : Prop := forall x, In x inputs -> x < nenv.
+
+Lemma FW_ext s s1 :
+  wg (fw s1) = wg (fw s) -> wgneg (fw s1) = wgneg (fw s) -> regs (fw s1) = regs (fw s) ->
+  guard s1 + inflight s1 = guard s + inflight s -> FW s -> FW s1.
+Proof. intros H1 H2 H3 H4 [A B]. unfold FW. rewrite H1, H2, H3. split; [exact A|lia]. Qed.
+
+Lemma FK_nonret s :
+  is_FRet (fpcv s) = false -> fwait s = WNone -> fucancel s = false -> (hasR (fpcv s) = true -> kR s = false) -> FK s.
+Proof.
+  intros H1 H2 H3 H4. unfold FK. rewrite H1, H2, H3. split; [auto|]. split; [discriminate|]. split; [discriminate|].
+  split; [discriminate|]. split; discriminate.
+Qed.
+
+Lemma FK_nonret_inv s : FK s -> is_FRet (fpcv s) = false ->
+  fwait s = WNone /\ fucancel s = false /\ (hasR (fpcv s) = true -> kR s = false).
+Proof. intros (K1 & _) H. apply K1. exact H. Qed.
+
+Lemma FR_nil s : regs (fw s) = [] -> FR s.
+Proof. intros H k x Hx. rewrite H in Hx. destruct k; discriminate. Qed.
+
+Ltac fl_tac := repeat split; try assumption; try reflexivity;
+  try (let j := fresh in let x := fresh in let Hj := fresh in intros j x Hj; cbn in Hj; lia);
+  try (let x := fresh in let H := fresh in intros x H; solve [destruct H]).
+
+Lemma finv_main_a ns0 inputs s s' :
+  wfi inputs (length ns0) -> FInv ns0 inputs s ->
+  (fpcv s = F0 \/ fpcv s = F1 \/ fpcv s = F2) ->
+  confl_main true true inputs s = Some s' -> FInv ns0 inputs s'.
+Proof.
+  intros Hwf (HW & HN & HFW & HFR & HFL & HFK) Hpc Hm.
+  destruct s as [w pc D R ok lives wt uc]. cbn [fpcv] in Hpc. unfold confl_main in Hm. cbn [fw fpcv fD fR fok flives fwait fucancel] in Hm.
+  destruct (FK_nonret_inv _ HFK) as (Hwt & Huc & HkR); [cbn [fpcv]; destruct Hpc as [E|[E|E]]; rewrite E; reflexivity|].
+  cbn [fwait fucancel fpcv] in Hwt, Huc, HkR. subst wt uc.
+  unfold FN in HN. cbn [fw fpcv fD fR] in HN. destruct HN as [HV HN].
+  unfold FL in HFL. cbn [fw fpcv fok flives] in HFL. destruct HFL as (L1 & L2 & L3 & L4 & L5).
+  unfold FW, guard, inflight in HFW. cbn [fw fpcv fok] in HFW. destruct HFW as [Hneg Hwg].
+  destruct Hpc as [E|[E|E]]; subst pc; destruct L5 as [Hnil Hl0]; subst lives.
+  - (* F0 *)
+    destruct inputs as [|c0 rest].
+    + inversion Hm; subst s'; clear Hm. unfold fset; cbn [fw fpcv fD fR fok flives fwait fucancel].
+      split; [exact HW|]. split; [split; [exact HV|exact I]|]. split; [split; [exact Hneg|exact Hwg]|].
+      split; [apply FR_nil; exact Hnil|]. split; [|apply FK_nonret; cbn; auto; discriminate].
+      unfold FL. cbn [fw fpcv fok flives]. fl_tac.
+    + inversion Hm; subst s'; clear Hm.
+      split; [apply WInv_addnode; exact HW|]. unfold w_detached, w_addnode; cbn [fw fpcv fD fR fok flives fwait fucancel nodes regs wg wgneg].
+      split; [|split; [split; [exact Hneg|exact Hwg]|split; [apply FR_nil; exact Hnil|split; [|apply FK_nonret; cbn; auto; discriminate]]]].
+      * unfold FN. cbn [fw fpcv fD fR nodes]. rewrite app_length, <- HN. cbn [length].
+        split; [intros x Hx; rewrite vals_of_snoc_old by lia; apply HV; lia|].
+        rewrite anc_of_snoc_new, is_canc_snoc_new, vals_of_snoc_new. cbn [anc canc vals].
+        repeat (split; [first [lia|reflexivity]|]). intros c Hc. cbn in Hc. inversion Hc; subst c.
+        apply HV. apply Hwf. left. reflexivity.
+      * unfold FL. cbn [fw fpcv fok flives regs nodes]. fl_tac.
+  - (* F1 *)
+    destruct HN as (Hlen & HD & Ha & Hk & Hv). subst D. inversion Hm; subst s'; clear Hm.
+    split; [apply WInv_addnode; exact HW|]. unfold w_child, w_addnode; cbn [fw fpcv fD fR fok flives fwait fucancel nodes regs wg wgneg].
+    split; [|split; [split; [exact Hneg|exact Hwg]|split; [apply FR_nil; exact Hnil|split]]].
+    + unfold FN. cbn [fw fpcv fD fR nodes]. rewrite app_length. cbn [length].
+      split; [intros x Hx; rewrite vals_of_snoc_old by lia; apply HV; lia|].
+      assert (Hlt : length ns0 < length (nodes w)) by lia.
+      rewrite (anc_of_snoc_old _ _ _ Hlt), (is_canc_snoc_old _ _ _ Hlt). rewrite <- Hlen.
+      rewrite anc_of_snoc_new, vals_of_snoc_new. cbn [anc canc vals]. rewrite Ha.
+      repeat (split; [first [lia|reflexivity|assumption]|]). exact Hv.
+    + unfold FL. cbn [fw fpcv fok flives regs nodes]. fl_tac.
+    + apply FK_nonret; cbn [fpcv fwait fucancel is_FRet hasR]; auto. intros _. unfold kR. cbn [fw fR nodes].
+      rewrite is_canc_snoc_new. cbn [canc]. exact Hk.
+  - (* F2 *)
+    inversion Hm; subst s'; clear Hm. unfold fset; cbn [fw fpcv fD fR fok flives fwait fucancel].
+    split; [eapply WInv_nodes_eq; [| |exact HW]; reflexivity|].
+    split; [unfold FN; cbn [fw fpcv fD fR w_wgadd nodes]; split; [exact HV|exact HN]|].
+    split; [unfold FW, guard, inflight; cbn [fw fpcv fok w_wgadd wg wgneg regs]; split; [exact Hneg|lia]|].
+    split; [apply FR_nil; exact Hnil|]. split.
+    + unfold FL. cbn [fw fpcv fok flives w_wgadd regs nodes]. fl_tac.
+    + apply FK_nonret; cbn [fpcv fwait fucancel is_FRet hasR]; auto.
+Qed.
+
+Definition FNR (ns0 : list node) (inputs : list nat) (ns : list node) (D R : nat) : Prop :=
+  let nenv := length ns0 in
+  (forall x, x < nenv -> vals_of ns x = vals_of ns0 x) /\
+  length ns = S (S nenv) /\ D = nenv /\ R = S nenv /\ anc_of ns nenv = [nenv] /\ is_canc ns nenv = false /\
+  anc_of ns (S nenv) = [S nenv; nenv] /\
+  (forall c0, hd_error inputs = Some c0 -> vals_of ns (S nenv) = vals_of ns0 c0).
+
+Lemma FN_R_iff ns0 inputs s :
+  hasR (fpcv s) = true -> (FN ns0 inputs s <-> FNR ns0 inputs (nodes (fw s)) (fD s) (fR s)).
+Proof. intros H. unfold FN, FNR. destruct (fpcv s); try discriminate; tauto. Qed.
+
+Lemma FR_ext2 s s1 :
+  regs (fw s1) = regs (fw s) -> nodes (fw s1) = nodes (fw s) -> fR s1 = fR s -> incl (flives s) (flives s1) ->
+  (forall i k, fpcv s = FRegB i k -> fpcv s1 = FRegB i k) -> FR s -> FR s1.
+Proof.
+  intros Hr Hn HR Hl Hpc H k x Hx. rewrite Hr in Hx. unfold FR1, kR, is_pending. rewrite Hr, Hn, HR.
+  destruct (H k x Hx) as [(A & B & C & D & E)|HB]; [left|right; exact HB].
+  split; [exact A|]. split; [apply Hl; exact B|]. split; [exact C|]. split; [exact D|].
+  destruct E as [(i & E)|E]; [left; exists i; apply Hpc; exact E|right; exact E].
+Qed.
+
+Lemma finv_main_b ns0 inputs s s' :
+  wfi inputs (length ns0) -> FInv ns0 inputs s ->
+  ((exists i, fpcv s = FLoop i) \/ (exists i, fpcv s = FAdd i) \/ fpcv s = FEnd) ->
+  confl_main true true inputs s = Some s' -> FInv ns0 inputs s'.
+Proof.
+  intros Hwf (HW & HN & HFW & HFR & HFL & HFK) Hpc Hm.
+  assert (HhR : hasR (fpcv s) = true) by (destruct Hpc as [[i E]|[[i E]|E]]; rewrite E; reflexivity).
+  assert (HnR : is_FRet (fpcv s) = false) by (destruct Hpc as [[i E]|[[i E]|E]]; rewrite E; reflexivity).
+  destruct (FK_nonret_inv _ HFK HnR) as (Hwt & Huc & HkR). specialize (HkR HhR).
+  apply (FN_R_iff ns0 inputs s HhR) in HN.
+  destruct s as [w pc D R ok lives wt uc]. cbn [fpcv] in Hpc. unfold confl_main in Hm. cbn [fw fpcv fD fR fok flives fwait fucancel] in *.
+  subst wt uc. unfold kR in HkR. cbn [fw fR] in HkR.
+  unfold FL in HFL. cbn [fw fpcv fok flives] in HFL. destruct HFL as (L1 & L2 & L3 & L4 & L5).
+  unfold FW, guard, inflight in HFW. cbn [fw fpcv fok] in HFW. destruct HFW as [Hneg Hwg].
+  assert (HFN' : forall s1, hasR (fpcv s1) = true -> nodes (fw s1) = nodes w -> fD s1 = D -> fR s1 = R -> FN ns0 inputs s1).
+  { intros s1 H1 H2 H3 H4. apply (FN_R_iff ns0 inputs s1 H1). rewrite H2, H3, H4. exact HN. }
+  assert (HFK' : forall s1, is_FRet (fpcv s1) = false -> hasR (fpcv s1) = true -> nodes (fw s1) = nodes w -> fR s1 = R ->
+                            fwait s1 = WNone -> fucancel s1 = false -> FK s1).
+  { intros s1 H1 H2 H3 H4 H5 H6. apply FK_nonret; auto. intros _. unfold kR. rewrite H3, H4. exact HkR. }
+  destruct Hpc as [[i E]|[[i E]|E]]; subst pc.
+  - (* FLoop i *)
+    destruct (nth_error inputs i) as [x|] eqn:Ex.
+    + destruct (is_canc (nodes w) x) eqn:Ek; inversion Hm; subst s'; clear Hm.
+      * (* already cancelled: skip *)
+        unfold fset; cbn [fw fpcv fD fR fok flives fwait fucancel].
+        split; [exact HW|]. split; [apply HFN'; reflexivity|]. split; [split; [exact Hneg|exact Hwg]|].
+        split; [eapply FR_ext; try exact HFR; try reflexivity; intros; discriminate|]. split; [|apply HFK'; reflexivity].
+        unfold FL. cbn [fw fpcv fok flives idx]. split; [exact L1|]. split; [exact L2|]. split; [|split; [|exact I]].
+        -- intros x' Hx'. destruct (L3 x' Hx') as [Hl|(i0 & [Hp|Hp] & _)]; [left; exact Hl|discriminate|discriminate].
+        -- intros j x' Hj Hx'. destruct (Nat.eq_dec j i) as [->|Hne]; [left; congruence|apply (L4 j x'); [cbn; lia|exact Hx']].
+      * (* live: remember it *)
+        split; [exact HW|]. split; [apply HFN'; reflexivity|]. split; [split; [exact Hneg|exact Hwg]|].
+        split; [eapply FR_ext2; try exact HFR; try reflexivity; [cbn; apply incl_appl, incl_refl|intros; discriminate]|].
+        split; [|apply HFK'; reflexivity].
+        unfold FL. cbn [fw fpcv fok flives idx]. split; [discriminate|]. split; [|split; [|split]].
+        -- intros x' Hx'. apply in_app_or in Hx'. destruct Hx' as [Hx'|[<-|[]]]; [apply L2; exact Hx'|eapply nth_error_In; eauto].
+        -- intros x' Hx'. apply in_app_or in Hx'. destruct Hx' as [Hx'|[<-|[]]].
+           ++ destruct (L3 x' Hx') as [Hl|(i0 & [Hp|Hp] & _)]; [left; exact Hl|discriminate|discriminate].
+           ++ right. exists i. auto.
+        -- intros j x' Hj Hx'. destruct (Nat.eq_dec j i) as [->|Hne].
+           ++ right. apply in_or_app. right. left. congruence.
+           ++ destruct (L4 j x') as [Hl|Hl]; [cbn; lia|exact Hx'|left; exact Hl|right; apply in_or_app; left; exact Hl].
+        -- exists x. split; [exact Ex|apply in_or_app; right; left; reflexivity].
+    + (* end of loop *)
+      inversion Hm; subst s'; clear Hm. unfold fset; cbn [fw fpcv fD fR fok flives fwait fucancel].
+      split; [exact HW|]. split; [apply HFN'; reflexivity|]. split; [split; [exact Hneg|exact Hwg]|].
+      split; [eapply FR_ext; try exact HFR; try reflexivity; intros; discriminate|]. split; [|apply HFK'; reflexivity].
+      unfold FL. cbn [fw fpcv fok flives idx]. split; [exact L1|]. split; [exact L2|]. split; [|split; [|exact I]].
+      * intros x' Hx'. destruct (L3 x' Hx') as [Hl|(i0 & [Hp|Hp] & _)]; [left; exact Hl|discriminate|discriminate].
+      * intros j x' Hj Hx'. apply nth_error_None in Ex. apply (L4 j x'); [cbn; apply nth_error_lt in Hx'; lia|exact Hx'].
+  - (* FAdd i *)
+    inversion Hm; subst s'; clear Hm. unfold fset; cbn [fw fpcv fD fR fok flives fwait fucancel].
+    split; [eapply WInv_nodes_eq; [| |exact HW]; reflexivity|]. split; [apply HFN'; reflexivity|].
+    split; [unfold FW, guard, inflight; cbn [fw fpcv fok w_wgadd wg wgneg regs]; split; [exact Hneg|lia]|].
+    split; [eapply FR_ext; try exact HFR; try reflexivity; intros; discriminate|]. split; [|apply HFK'; reflexivity].
+    unfold FL. cbn [fw fpcv fok flives idx w_wgadd regs nodes]. split; [exact L1|]. split; [exact L2|]. split; [|split; [exact L4|exact L5]].
+    intros x' Hx'. destruct (L3 x' Hx') as [Hl|(i0 & [Hp|Hp] & Hi0)]; [left; exact Hl| |discriminate].
+    inversion Hp; subst i0. right. exists i. auto.
+  - (* FEnd *)
+    destruct ok eqn:Eok; inversion Hm; subst s'; clear Hm; unfold fset; cbn [fw fpcv fD fR fok flives fwait fucancel];
+      (split; [exact HW|]); (split; [apply HFN'; reflexivity|]); (split; [split; [exact Hneg|exact Hwg]|]);
+      (split; [eapply FR_ext; try exact HFR; try reflexivity; intros; discriminate|]); (split; [|apply HFK'; reflexivity]);
+      unfold FL; cbn [fw fpcv fok flives idx]; (split; [exact L1|]); (split; [exact L2|]); (split; [|split; [exact L4|reflexivity]]);
+      intros x' Hx'; (destruct (L3 x' Hx') as [Hl|(i0 & [Hp|Hp] & _)]; [left; exact Hl|discriminate|discriminate]).
+Qed.
+
+Lemma is_pending_afterfunc_old w n f a :
+  a < length (regs w) -> is_pending (w_afterfunc w n f) a = is_pending w a.
+Proof. intros H. unfold is_pending. cbn [w_afterfunc regs]. rewrite nth_error_snoc_old by exact H. reflexivity. Qed.
+
+Lemma finv_main_c ns0 inputs s s' :
+  wfi inputs (length ns0) -> FInv ns0 inputs s ->
+  ((exists i, fpcv s = FRegA i) \/ (exists i a, fpcv s = FRegB i a)) ->
+  confl_main true true inputs s = Some s' -> FInv ns0 inputs s'.
+Proof.
+  intros Hwf (HW & HN & HFW & HFR & HFL & HFK) Hpc Hm.
+  assert (HhR : hasR (fpcv s) = true) by (destruct Hpc as [[i E]|[i [a E]]]; rewrite E; reflexivity).
+  assert (HnR : is_FRet (fpcv s) = false) by (destruct Hpc as [[i E]|[i [a E]]]; rewrite E; reflexivity).
+  destruct (FK_nonret_inv _ HFK HnR) as (Hwt & Huc & HkR). specialize (HkR HhR).
+  apply (FN_R_iff ns0 inputs s HhR) in HN.
+  destruct s as [w pc D R ok lives wt uc]. cbn [fpcv] in Hpc. unfold confl_main in Hm. cbn [fw fpcv fD fR fok flives fwait fucancel] in *.
+  subst wt uc. unfold kR in HkR. cbn [fw fR] in HkR.
+  unfold FL in HFL. cbn [fw fpcv fok flives] in HFL. destruct HFL as (L1 & L2 & L3 & L4 & L5).
+  unfold FW, guard, inflight in HFW. cbn [fw fpcv fok] in HFW. destruct HFW as [Hneg Hwg].
+  assert (HFN' : forall s1, hasR (fpcv s1) = true -> nodes (fw s1) = nodes w -> fD s1 = D -> fR s1 = R -> FN ns0 inputs s1).
+  { intros s1 H1 H2 H3 H4. apply (FN_R_iff ns0 inputs s1 H1). rewrite H2, H3, H4. exact HN. }
+  assert (HFK' : forall s1, is_FRet (fpcv s1) = false -> hasR (fpcv s1) = true -> nodes (fw s1) = nodes w -> fR s1 = R ->
+                            fwait s1 = WNone -> fucancel s1 = false -> FK s1).
+  { intros s1 H1 H2 H3 H4 H5 H6. apply FK_nonret; auto. intros _. unfold kR. rewrite H3, H4. exact HkR. }
+  destruct HN as (HV & Hlen & HD & HRr & _).
+  (* an old registration keeps its invariant when one more registration is appended *)
+  assert (Hold : forall n f pc' k y, nth_error (regs w) k = Some y ->
+            (forall i0, pc = FRegB i0 k -> exists b yb, nth_error (regs (w_afterfunc w n f)) b = Some yb /\ rfn yb = FChain true k AWgDone) ->
+            FR1 {| fw := w_afterfunc w n f; fpcv := pc'; fD := D; fR := R; fok := ok; flives := lives; fwait := WNone; fucancel := false |} k y).
+  { intros n f pc' k y Hy Hp. unfold FR1, kR. cbn [fw fpcv fR flives w_afterfunc nodes].
+    destruct (HFR k y Hy) as [(A & B & C & D' & E)|(a & A & B & C & (xa & Hxa & Hxaf) & E & F)]; [left|right].
+    - repeat (split; [assumption|]). right. destruct E as [(i0 & E)|(b & yb & Hyb & Hybf)].
+      + cbn [fpcv] in E. apply (Hp i0 E).
+      + exists b, yb. split; [cbn [fw w_afterfunc regs]; rewrite nth_error_snoc_old; [exact Hyb|eapply nth_error_lt; eauto]|exact Hybf].
+    - exists a. repeat (split; [assumption|]). split; [|split; [exact E|]].
+      + exists xa. split; [cbn [fw w_afterfunc regs]; rewrite nth_error_snoc_old; [exact Hxa|eapply nth_error_lt; eauto]|exact Hxaf].
+      + intros Hd. change (is_pending (w_afterfunc w n f) a = false).
+        rewrite is_pending_afterfunc_old by (eapply nth_error_lt; eauto). apply F. exact Hd. }
+  destruct Hpc as [[i E]|[i [a E]]]; subst pc.
+  - (* FRegA i *)
+    destruct L5 as (x0 & Hx0 & Hx0l). rewrite Hx0 in Hm. inversion Hm; subst s'; clear Hm.
+    unfold fset; cbn [fw fpcv fD fR fok flives fwait fucancel].
+    assert (Hxlt : x0 < length (nodes w)) by (specialize (Hwf x0 (nth_error_In _ _ Hx0)); lia).
+    split; [apply WInv_afterfunc; assumption|]. split; [apply HFN'; reflexivity|]. split; [|split; [|split; [|apply HFK'; reflexivity]]].
+    + unfold FW, guard, inflight. cbn [fw fpcv fok w_afterfunc wg wgneg regs]. split; [exact Hneg|]. rewrite sum_snoc.
+      assert (Ht : tok {| rnode := x0; rfn := FAct AWgDone; rst := if is_canc (nodes w) x0 then Run (FAct AWgDone) else Pending |} = 1)
+        by (unfold tok; cbn [rst rfn]; destruct (is_canc (nodes w) x0); reflexivity).
+      rewrite Ht. lia.
+    + intros k y Hy. cbn [fw w_afterfunc regs] in Hy. apply nth_error_snoc_inv in Hy. destruct Hy as [[_ Hy]|[-> ->]].
+      * apply Hold; [exact Hy|]. intros; discriminate.
+      * left. unfold kR. cbn [fw fpcv fR flives rfn rnode rst].
+        split; [reflexivity|]. split; [exact Hx0l|]. split; [|split; [|left; exists i; reflexivity]].
+        -- intros f Hf. destruct (is_canc (nodes w) x0); congruence.
+        -- intros Hs. destruct (is_canc (nodes w) x0); discriminate.
+    + unfold FL. cbn [fw fpcv fok flives idx w_afterfunc regs nodes]. split; [exact L1|]. split; [exact L2|]. split; [|split; [exact L4|]].
+      * intros x' Hx'. left. destruct (L3 x' Hx') as [(k & y & Hy & Hyf & Hyn)|(i0 & [Hp|Hp] & Hi0)]; [|discriminate|].
+        -- exists k, y. split; [rewrite nth_error_snoc_old; [exact Hy|eapply nth_error_lt; eauto]|auto].
+        -- inversion Hp; subst i0. exists (length (regs w)). eexists. split; [apply nth_error_snoc_new|]. cbn. split; [reflexivity|congruence].
+      * split; [exists x0; auto|]. eexists. split; [apply nth_error_snoc_new|reflexivity].
+  - (* FRegB i a *)
+    destruct L5 as ((x0 & Hx0 & Hx0l) & xa & Hxa & Hxaf). inversion Hm; subst s'; clear Hm.
+    unfold fset; cbn [fw fpcv fD fR fok flives fwait fucancel].
+    split; [apply WInv_afterfunc; [exact HW|lia]|]. split; [apply HFN'; reflexivity|]. split; [|split; [|split; [|apply HFK'; reflexivity]]].
+    + unfold FW, guard, inflight. cbn [fw fpcv fok w_afterfunc wg wgneg regs]. split; [exact Hneg|]. rewrite sum_snoc, HkR.
+      unfold tok at 2. cbn [rst rfn is_done_act]. lia.
+    + intros k y Hy. cbn [fw w_afterfunc regs] in Hy. apply nth_error_snoc_inv in Hy. destruct Hy as [[_ Hy]|[-> ->]].
+      * apply Hold; [exact Hy|]. intros i0 Hp. inversion Hp; subst i0 k.
+        exists (length (regs w)). eexists. split; [cbn [w_afterfunc regs]; apply nth_error_snoc_new|reflexivity].
+      * right. exists a. cbn [fw fpcv fR flives rfn rnode rst w_afterfunc regs]. rewrite HkR.
+        split; [reflexivity|]. split; [reflexivity|]. split; [discriminate|]. split; [|split; [intros; discriminate|intros [H|H]; discriminate]].
+        exists xa. split; [rewrite nth_error_snoc_old; [exact Hxa|eapply nth_error_lt; eauto]|exact Hxaf].
+    + unfold FL. cbn [fw fpcv fok flives idx w_afterfunc regs nodes]. split; [exact L1|]. split; [exact L2|]. split; [|split; [exact L4|exact I]].
+      intros x' Hx'. left. destruct (L3 x' Hx') as [(k & y & Hy & Hyf & Hyn)|(i0 & [Hp|Hp] & Hi0)]; [|discriminate|discriminate].
+      exists k, y. split; [rewrite nth_error_snoc_old; [exact Hy|eapply nth_error_lt; eauto]|auto].
+Qed.
+
+Lemma FN_fR ns0 inputs s : FN ns0 inputs s -> hasR (fpcv s) = true -> fR s = S (length ns0).
+Proof. intros HN Hh. apply (FN_R_iff _ _ _ Hh) in HN. destruct HN as (_ & _ & _ & H & _). exact H. Qed.
+
+Lemma FL_pc inputs s s1 :
+  fw s1 = fw s -> fok s1 = fok s -> flives s1 = flives s -> idx inputs (fpcv s1) = idx inputs (fpcv s) ->
+  (forall i, fpcv s <> FAdd i /\ fpcv s <> FRegA i) ->
+  match fpcv s1 with FEnd | FRet | FLoop _ => True | FDoneG | FSpawn => fok s = true | FDefer => fok s = false | _ => False end ->
+  FL inputs s -> FL inputs s1.
+Proof.
+  intros Hw Hok Hl Hidx Hno Hpc (L1 & L2 & L3 & L4 & L5). unfold FL. rewrite Hw, Hok, Hl, Hidx.
+  split; [exact L1|]. split; [exact L2|]. split; [|split; [exact L4|]].
+  - intros x Hx. destruct (L3 x Hx) as [Hleft|(i & [Hp|Hp] & _)]; [left; exact Hleft| |]; exfalso; destruct (Hno i); auto.
+  - destruct (fpcv s1); try contradiction; auto.
+Qed.
+
+Lemma finv_main_d ns0 inputs s s' :
+  FInv ns0 inputs s -> (fpcv s = FDefer \/ fpcv s = FDoneG \/ fpcv s = FSpawn) ->
+  confl_main true true inputs s = Some s' -> FInv ns0 inputs s'.
+Proof.
+  intros HI Hpc Hm. pose proof HI as (HW & HN & HFW & HFR & HFL & HFK).
+  assert (HhR : hasR (fpcv s) = true) by (destruct Hpc as [E|[E|E]]; rewrite E; reflexivity).
+  assert (HnR : is_FRet (fpcv s) = false) by (destruct Hpc as [E|[E|E]]; rewrite E; reflexivity).
+  destruct (FK_nonret_inv _ HFK HnR) as (Hwt & Huc & HkR). specialize (HkR HhR).
+  pose proof (FN_fR _ _ _ HN HhR) as HRr.
+  unfold confl_main in Hm. destruct Hpc as [E|[E|E]]; rewrite E in Hm; inversion Hm; subst s'; clear Hm.
+  - (* FDefer: the deferred cancel of the early return *)
+    destruct (fcancel_parts ns0 inputs s (fR s) HW HN HFW HFR HFL (or_intror (conj HRr HhR))) as (A & B & C & D & F & Hm & _ & Hk).
+    specialize (Hk HRr HhR). set (s1 := fset s (w_cancel (fw s) (fR s)) (fpcv s)) in *.
+    assert (Hok : fok s = false) by (destruct HFL as (_ & _ & _ & _ & L5); rewrite E in L5; exact L5).
+    split; [exact A|]. split; [|split; [|split; [|split]]].
+    + apply (FN_R_iff ns0 inputs _ eq_refl). apply (FN_R_iff ns0 inputs s1 HhR) in B. exact B.
+    + eapply FW_ext; try exact C; try reflexivity. unfold guard, inflight, s1, fset. cbn [fpcv fok]. rewrite E, Hok. reflexivity.
+    + eapply FR_ext; try exact D; try reflexivity. intros i k Hp. unfold s1, fset in Hp. cbn [fpcv] in Hp. congruence.
+    + eapply FL_pc; try exact F; try reflexivity.
+      * unfold s1, fset. cbn [fpcv]. rewrite E. reflexivity.
+      * intros i. unfold s1, fset. cbn [fpcv]. rewrite E. split; discriminate.
+      * exact I.
+    + unfold FK, fset. cbn [fpcv fok fwait fucancel is_FRet]. unfold kR in *. unfold s1, fset in Hk. cbn [fw fR] in *.
+      split; [discriminate|]. split; [|split; [intros _; exact Hk|split; [intros _; exact Hk|split; [intros _ _; auto|intros _ Hc; congruence]]]].
+      intros _ _. right. intros x Hx. destruct HFL as (L1 & _). rewrite (L1 Hok) in Hx. destruct Hx.
+  - (* FDoneG: release the guard count *)
+    destruct HFW as [Hneg Hwg]. unfold guard, inflight in Hwg. rewrite E in Hwg.
+    destruct (wg (fw s)) as [|k] eqn:Ewg; [lia|].
+    assert (Ew1 : w_act (fw s) AWgDone = {| nodes := nodes (fw s); regs := regs (fw s); calls := calls (fw s); wg := k; wgneg := wgneg (fw s) |})
+      by (cbn [w_act]; rewrite Ewg; reflexivity).
+    rewrite Ew1. assert (Hok : fok s = true) by (destruct HFL as (_ & _ & _ & _ & L5); rewrite E in L5; exact L5).
+    split; [eapply WInv_nodes_eq; [| |exact HW]; reflexivity|]. split; [|split; [|split; [|split]]].
+    + apply (FN_R_iff ns0 inputs _ eq_refl). apply (FN_R_iff ns0 inputs s HhR) in HN. exact HN.
+    + unfold FW, guard, inflight, fset. cbn [fw fpcv fok wg wgneg regs]. split; [exact Hneg|lia].
+    + eapply FR_ext; try exact HFR; try reflexivity. intros i k' Hp. congruence.
+    + eapply FL_pc; try exact HFL; try reflexivity.
+      * unfold fset. cbn [fpcv]. rewrite E. reflexivity.
+      * intros i. rewrite E. split; discriminate.
+      * exact Hok.
+    + apply FK_nonret; unfold fset; cbn [fpcv fwait fucancel is_FRet hasR]; auto. intros _. exact HkR.
+  - (* FSpawn: start the waiter *)
+    assert (Hok : fok s = true) by (destruct HFL as (_ & _ & _ & _ & L5); rewrite E in L5; exact L5).
+    split; [exact HW|]. split; [|split; [|split; [|split]]].
+    + apply (FN_R_iff ns0 inputs _ eq_refl). apply (FN_R_iff ns0 inputs s HhR) in HN. exact HN.
+    + eapply FW_ext; try exact HFW; try reflexivity. unfold guard, inflight. cbn [fpcv fok]. rewrite E, Hok. reflexivity.
+    + eapply FR_ext; try exact HFR; try reflexivity. intros i k' Hp. congruence.
+    + eapply FL_pc; try exact HFL; try reflexivity.
+      * cbn [fpcv]. rewrite E. reflexivity.
+      * intros i. rewrite E. split; discriminate.
+      * exact I.
+    + unfold FK. cbn [fpcv fok fwait fucancel is_FRet]. unfold kR in *. cbn [fw fR].
+      split; [discriminate|]. split; [|split; [intros Hc; congruence|split; [discriminate|split; [intros _ Hc; congruence|intros _ _; discriminate]]]].
+      intros _ [Hc|[Hc|Hc]]; [congruence|discriminate|discriminate].
+Qed.
+
+Lemma finv_user ns0 inputs s :
+  FInv ns0 inputs s -> fpcv s = FRet ->
+  FInv ns0 inputs {| fw := w_cancel (fw s) (fR s); fpcv := FRet; fD := fD s; fR := fR s; fok := fok s;
+                     flives := flives s; fwait := fwait s; fucancel := true |}.
+Proof.
+  intros (HW & HN & HFW & HFR & HFL & HFK) E.
+  assert (HhR : hasR (fpcv s) = true) by (rewrite E; reflexivity).
+  pose proof (FN_fR _ _ _ HN HhR) as HRr.
+  destruct (fcancel_parts ns0 inputs s (fR s) HW HN HFW HFR HFL (or_intror (conj HRr HhR))) as (A & B & C & D & F & Hm & _ & Hk).
+  specialize (Hk HRr HhR). set (s1 := fset s (w_cancel (fw s) (fR s)) (fpcv s)) in *.
+  split; [exact A|]. split; [|split; [|split; [|split]]].
+  - apply (FN_R_iff ns0 inputs _ eq_refl). apply (FN_R_iff ns0 inputs s1 HhR) in B. exact B.
+  - eapply FW_ext; try exact C; try reflexivity. unfold guard, inflight, s1, fset. cbn [fpcv fok]. rewrite E. reflexivity.
+  - eapply FR_ext; try exact D; try reflexivity. intros i k Hp. unfold s1, fset in Hp. cbn [fpcv] in Hp. congruence.
+  - eapply FL_ext; try exact F; try reflexivity. unfold s1, fset. cbn [fpcv]. exact (eq_sym E).
+  - destruct HFK as (K1 & K2 & K3 & K4 & K5 & K6). rewrite E in *. cbn [is_FRet] in *.
+    unfold FK. cbn [fpcv fok fwait fucancel is_FRet]. unfold kR in *. unfold s1, fset in Hk. cbn [fw fR] in *.
+    split; [discriminate|]. split; [intros _ _; left; reflexivity|]. split; [intros _; exact Hk|]. split; [intros _; exact Hk|].
+    split; [intros _ Hok; split; [exact Hk|apply (K5 eq_refl Hok)]|exact K6].
+Qed.
+
+Lemma finv_waiter ns0 inputs s s' :
+  FInv ns0 inputs s -> confl_step true true inputs (length ns0) s LWaiter = Some s' -> FInv ns0 inputs s'.
+Proof.
+  intros (HW & HN & HFW & HFR & HFL & HFK) Hs. cbn [confl_step] in Hs.
+  destruct HFK as (K1 & K2 & K3 & K4 & K5 & K6).
+  assert (E : fwait s <> WNone -> fpcv s = FRet).
+  { intros Hne. destruct (is_FRet (fpcv s)) eqn:Ef; [destruct (fpcv s); try discriminate; reflexivity|].
+    destruct (K1 eq_refl) as (Hc & _). congruence. }
+  destruct (fwait s) eqn:Ewt; try discriminate.
+  - (* wg.Wait() returns *)
+    destruct (Nat.eqb_spec (wg (fw s)) 0) as [Hz|Hz]; [|discriminate]. inversion Hs; subst s'; clear Hs.
+    specialize (E ltac:(discriminate)). rewrite E in *. cbn [is_FRet] in *.
+    split; [exact HW|]. split; [|split; [|split; [|split]]].
+    + apply (FN_R_iff ns0 inputs _ eq_refl). apply (FN_R_iff ns0 inputs s) in HN; [exact HN|rewrite E; reflexivity].
+    + eapply FW_ext; try exact HFW; try reflexivity. unfold guard, inflight. cbn [fpcv fok]. rewrite E. reflexivity.
+    + eapply FR_ext; try exact HFR; try reflexivity. intros i k Hp. congruence.
+    + eapply FL_ext; try exact HFL; try reflexivity. cbn [fpcv]. exact (eq_sym E).
+    + unfold FK. cbn [fpcv fok fwait fucancel is_FRet]. unfold kR in *. cbn [fw fR].
+      split; [discriminate|]. split; [|split; [exact K3|split; [discriminate|split; [|intros _ _; discriminate]]]].
+      * intros _ _. destruct (is_canc (nodes (fw s)) (fR s)) eqn:EkR; [apply (K2 eq_refl); left; reflexivity|].
+        right. intros x Hx. destruct HFW as [_ Hwg]. unfold guard, inflight in Hwg. rewrite E in Hwg.
+        destruct HFL as (_ & _ & L3 & _). destruct (L3 x Hx) as [(k & y & Hy & Hyf & Hyn)|(i & [Hp|Hp] & _)]; [|congruence|congruence].
+        pose proof (sum_ge tok _ _ _ Hy) as Hge. assert (Ht : tok y = 0) by lia.
+        destruct (FR1_A_of_fn s k y (HFR k y Hy) Hyf) as (_ & Hrun & Hst & _).
+        destruct (HW k y Hy) as (_ & _ & Hf). rewrite <- Hyn. apply Hf.
+        unfold tok in Ht. destruct (rst y) eqn:Er.
+        -- rewrite Hyf in Ht. discriminate.
+        -- specialize (Hst eq_refl). unfold kR in Hst. congruence.
+        -- rewrite (Hrun f eq_refl) in Ht. discriminate.
+        -- right. reflexivity.
+      * intros _ Hok. destruct (K5 eq_refl Hok) as [_ Hc]. discriminate.
+  - (* combined cancel *)
+    inversion Hs; subst s'; clear Hs. specialize (E ltac:(discriminate)).
+    assert (HhR : hasR (fpcv s) = true) by (rewrite E; reflexivity).
+    pose proof (FN_fR _ _ _ HN HhR) as HRr.
+    destruct (fcancel_parts ns0 inputs s (fR s) HW HN HFW HFR HFL (or_intror (conj HRr HhR))) as (A & B & C & D & F & Hm & _ & Hk).
+    specialize (Hk HRr HhR). set (s1 := fset s (w_cancel (fw s) (fR s)) (fpcv s)) in *.
+    rewrite E in K1, K2, K5, K6. cbn [is_FRet] in *.
+    split; [exact A|]. split; [|split; [|split; [|split]]].
+    + apply (FN_R_iff ns0 inputs _ HhR). apply (FN_R_iff ns0 inputs s1 HhR) in B. exact B.
+    + eapply FW_ext; try exact C; try reflexivity.
+    + eapply FR_ext; try exact D; try reflexivity.
+    + eapply FL_ext; try exact F; try reflexivity.
+    + unfold FK. cbn [fpcv fok fwait fucancel]. rewrite E. cbn [is_FRet]. unfold kR in *. unfold s1, fset in Hk. cbn [fw fR] in *.
+      split; [discriminate|]. split; [|split; [intros _; exact Hk|split; [intros _; exact Hk|split; [|intros _ _; discriminate]]]].
+      * intros _ _. destruct (K2 eq_refl (or_intror (or_introl eq_refl))) as [Hu|Hd]; [left; exact Hu|right].
+        intros x Hx. apply Hm. apply Hd. exact Hx.
+      * intros _ Hok. destruct (K5 eq_refl Hok) as [_ Hc]. discriminate.
+Qed.
